@@ -124,8 +124,8 @@ func cmdCheck(args []string) int {
 			unsupported = append(unsupported, fmt.Sprintf("%s [%s]: %s", fl.Func, fr.Level, fr.Unsupported))
 			continue
 		}
-		if len(fl.Sel.Kinds) > 0 && E.effectiveContract(fl.Func) == nil {
-			swept[fl.Func] = true // annotation-free sweep of a function that has no contract
+		if len(fl.Sel.Kinds) > 0 {
+			swept[fl.Func] = true // annotation-free sweep: only obligations of the listed kinds are taken from this function
 		} else {
 			funcs[fl.Func] = true
 		}
@@ -290,6 +290,12 @@ func cmdCheck(args []string) int {
 		fnames = append(fnames, f)
 	}
 	sort.Strings(fnames)
+	sweptOnly := 0
+	for f := range swept {
+		if !funcs[f] {
+			sweptOnly++
+		}
+	}
 	var assumptions []string
 	assumptions = append(assumptions, baseAssumptions...)
 	// callee contracts used at call sites: discharged by this check when the callee is selected at that facet level,
@@ -383,7 +389,7 @@ func cmdCheck(args []string) int {
 		"trusted_base":           trustedBase,
 		"functions_under_contract": fnames,
 		"functions":              len(fnames),
-		"functions_swept_without_contract": len(swept),
+		"functions_swept_without_contract": sweptOnly,
 		"by_backend":             bySolver,
 		"solver_seconds":         round3(solverSecs),
 		"samples":                samples,
